@@ -26,6 +26,7 @@ type c12Case struct {
 	Branch  *model.Branch `json:"branch,omitempty"`
 	Strict  bool          `json:"strict,omitempty"`
 	SingleP bool          `json:"singleP,omitempty"` // run in a worker process started with GOMAXPROCS=1
+	OneCPU  bool          `json:"oneCPU,omitempty"`  // with SingleP: the worker process is confined to one CPU (taskset), so runtime.NumCPU() is 1 too
 	Target  string        `json:"target,omitempty"`  // mkdir / verify: spelling of the target directory option ("", slash, rel)
 	IOKind  int           `json:"ioKind,omitempty"`  // dynamic type of the reader/writer handed to the library (ops.Faults.IOKind)
 }
@@ -43,6 +44,7 @@ func genC12Opts(t *rapid.T, c *c12Case) {
 	}
 	c.Strict = rapid.IntRange(0, 3).Draw(t, "strict") == 0
 	c.SingleP = rapid.IntRange(0, 7).Draw(t, "singleP") == 0
+	c.OneCPU = c.SingleP && rapid.Bool().Draw(t, "oneCPU")
 	c.IOKind = rapid.SampledFrom([]int{0, 0, 0, 1, 3, 4, 5}).Draw(t, "ioKind")
 	c.Target = rapid.SampledFrom([]string{"", "", "slash", "rel"}).Draw(t, "target")
 }
@@ -84,7 +86,8 @@ func c12Make(c c12Case, op string, massive bool, doc []byte) ops.Case {
 	return cs
 }
 
-func c12Exec(cs *ops.Case, inproc bool, singleP bool) *ops.Result {
+func c12Exec(cs *ops.Case, inproc bool, singleP bool, oneCPUs ...bool) *ops.Result {
+	oneCPU := len(oneCPUs) > 0 && oneCPUs[0]
 	if inproc {
 		return ops.DefaultEnv.Run(cs)
 	}
@@ -92,6 +95,9 @@ func c12Exec(cs *ops.Case, inproc bool, singleP bool) *ops.Result {
 		return pool("chroot").Run(cs)
 	}
 	if singleP {
+		if oneCPU {
+			return pool("onecpu").Run(cs)
+		}
 		return pool("single").Run(cs)
 	}
 	return pool("plain").Run(cs)
@@ -101,7 +107,7 @@ func c12Check(c c12Case) string { return c12CheckIn(c, false) }
 
 func c12CheckIn(c c12Case, inproc bool) string {
 	cs := c12Make(c, c.Op, c.Massive, c.Doc)
-	res := c12Exec(&cs, inproc, c.SingleP)
+	res := c12Exec(&cs, inproc, c.SingleP, c.OneCPU)
 	head := fmt.Sprintf("op=%s massive=%v input=%q\n", c.Op, c.Massive, truncate(string(c.Doc), 300))
 	if res.Infra != "" {
 		return ""
@@ -354,7 +360,7 @@ func c12Record(col *collector, c c12Case, kinds []string) {
 	if c.SingleP {
 		cl = append(cl, "process-with-one-P")
 	}
-	col.eval(len(kinds) > 0 || len(c.Doc) >= 1024, hash64(string(c.Doc), c.Op, fmt.Sprint(c.Massive, c.Exts, c.HasExts, c.Branch, c.Strict, c.SingleP, c.IOKind, c.Target)), cl...)
+	col.eval(len(kinds) > 0 || len(c.Doc) >= 1024, hash64(string(c.Doc), c.Op, fmt.Sprint(c.Massive, c.Exts, c.HasExts, c.Branch, c.Strict, c.SingleP, c.OneCPU, c.IOKind, c.Target)), cl...)
 	col.sample(func() any {
 		return map[string]any{"doc": truncate(string(c.Doc), 200), "op": c.Op, "massive": c.Massive}
 	})
@@ -404,7 +410,7 @@ func TestC12Constants(t *testing.T) {
 		for _, op := range c12Ops {
 			for _, massive := range []bool{false, true} {
 				n++
-				c := c12Case{Doc: []byte(d), Op: op, Massive: massive, SingleP: n%4 == 0}
+				c := c12Case{Doc: []byte(d), Op: op, Massive: massive, SingleP: n%4 == 0, OneCPU: n%8 == 0}
 				if n%3 == 0 {
 					// rotate through the hostile extension values, two at a time
 					c.HasExts = true
